@@ -1240,7 +1240,7 @@ func genConc(r *vh.Rand, tier string, id string) vh.Case {
 	if r.Chance(2, 3) {
 		c.Ops = append(c.Ops, "run 0") // most cases: the initial build completes first
 	}
-	switch r.Intn(4) {
+	switch r.Intn(6) {
 	case 0: // reader racing a rebuild (the stale-pointer window of hasCached)
 		k := r.Intn(g.n)
 		c.Ops = append(c.Ops, fmt.Sprintf("spawn %d put %d", next, k))
@@ -1266,6 +1266,33 @@ func genConc(r *vh.Rand, tier string, id string) vh.Case {
 				next++
 			}
 		}
+	case 2, 3: // a Put / PutMany that straddles a rebuild's filter swap and snapshot, then readers of its keys
+		k := r.Intn(g.n)
+		k2 := r.Intn(g.n)
+		pt, rb := next, next+1
+		next += 2
+		if r.Bool() {
+			c.Ops = append(c.Ops, fmt.Sprintf("spawn %d putmany %d,%d", pt, k, k2))
+		} else {
+			c.Ops = append(c.Ops, fmt.Sprintf("spawn %d put %d", pt, k))
+		}
+		c.Ops = append(c.Ops, fmt.Sprintf("spawn %d rebuild 1048576 0", rb))
+		// lock, deactivate, swap, snapshot = 4 steps; vary around that window
+		for j, m := 0, r.Range(2, 6); j < m; j++ {
+			c.Ops = append(c.Ops, fmt.Sprintf("step %d", rb))
+		}
+		for j, m := 0, r.Range(1, 3); j < m; j++ { // store write, then some of the filter adds
+			c.Ops = append(c.Ops, fmt.Sprintf("step %d", pt))
+		}
+		if r.Bool() {
+			c.Ops = append(c.Ops, fmt.Sprintf("run %d", pt), fmt.Sprintf("run %d", rb))
+		} else {
+			c.Ops = append(c.Ops, fmt.Sprintf("run %d", rb), fmt.Sprintf("run %d", pt))
+		}
+		for _, kk := range []int{k, k2} {
+			c.Ops = append(c.Ops, fmt.Sprintf("spawn %d %s %d", next, vh.Pick(r, []string{"has", "get", "size"}), kk), fmt.Sprintf("run %d", next))
+			next++
+		}
 	default:
 	}
 	m := r.Range(6, 30)
@@ -1273,7 +1300,7 @@ func genConc(r *vh.Rand, tier string, id string) vh.Case {
 		m = r.Range(6, 60)
 	}
 	for j := 0; j < m; j++ {
-		if next <= 6 && r.Chance(1, 4) {
+		if next <= 8 && r.Chance(1, 4) {
 			c.Ops = append(c.Ops, fmt.Sprintf("spawn %d %s", next, randConcOp(r, g.n)))
 			next++
 		} else if r.Chance(1, 10) {
